@@ -1,6 +1,7 @@
 package props
 
 import (
+	"os"
 	"bytes"
 	"encoding/hex"
 	"encoding/json"
@@ -93,6 +94,13 @@ func drawC15(src *vs.Src) *c15Params {
 		case 6:
 			return 16384 + src.Intn(3000)
 		}
+		if src.Bool(1, 2) {
+			// near the smallest workable value: even the Finished message is fragmented
+			if IsCBC(p.Suite) {
+				return 77 + src.Intn(30)
+			}
+			return 50 + src.Intn(30)
+		}
 		return 576
 	}
 	p.PMTUC, p.PMTUS = pm(), pm()
@@ -146,6 +154,10 @@ func drawC15(src *vs.Src) *c15Params {
 	}
 	if nl == 0 && src.Bool(1, 3) {
 		p.IdleMs = pickInt(src, []int{1500, 5000})
+	}
+	if p.PMTUC < 200 && p.PMTUC > 0 || p.PMTUS < 200 && p.PMTUS > 0 {
+		// below the range the loss cases were designed for (what a lost datagram costs there is C19's subject)
+		p.Loss = nil
 	}
 	return p
 }
@@ -352,6 +364,11 @@ func (c15) Run(c *Case, src *vs.Src) *Result {
 	pj, _ := json.Marshal(p)
 	r.Key = hashKey(string(pj))
 	r.Outcome = reason
+	if os.Getenv("VERIF_DEBUG") != "" {
+		for _, d := range pair.Net.SentLog() {
+			fmt.Fprintf(os.Stderr, "dgram dir=%d t=%v len=%d name=%s dropped=%v %x\n", d.Dir, d.SentAt, len(d.Data), d.Name, d.Dropped, d.Data[:min(len(d.Data), 30)])
+		}
+	}
 	if reason != vs.Done {
 		r.Violate("not-ended", sigp+" not-ended "+reason, "run ended with %q, unfinished %v (client hs %v, server hs %v)", reason, unf, ci.hsErr, si.hsErr)
 		return r
@@ -398,6 +415,14 @@ func (c15) Run(c *Case, src *vs.Src) *Result {
 		for q := 0; q+13 <= len(b); {
 			n := int(b[q+11])<<8 | int(b[q+12])
 			epoch := int(b[q+3])<<8 | int(b[q+4])
+			limit := pmtuOf(p.PMTUC)
+			if d.Dir == simnet.DirS2C {
+				limit = pmtuOf(p.PMTUS)
+			}
+			if 13+n > limit && !(epoch > 0 && b[q] == 23) {
+				// handshake messages are fragmented so that every record fits the path MTU (application records: above)
+				r.Violate("record-over-mtu", sigp+" handshake-record>pmtu", "a record of type %d, epoch %d takes %d bytes on the wire with path MTU %d (datagram %s)", b[q], epoch, 13+n, limit, d.Name)
+			}
 			if epoch == 0 && n > 16384 {
 				r.Violate("record-size", sigp+" plaintext>16384", "unprotected record of type %d with %d bytes of plaintext in a datagram of %d bytes", b[q], n, len(b))
 			} else if n > 16384+2048 {
